@@ -5,6 +5,7 @@ import (
 	"errors"
 	"fmt"
 	"io"
+	"runtime"
 	"sort"
 	"strconv"
 	"strings"
@@ -766,6 +767,9 @@ func runRCM(c Case) *outcome {
 	var run2 *call
 	if c.ExtraRun == "concurrent" {
 		run2 = w.goRun(m)
+	}
+	if c.CloseRace > 1 {
+		runtime.Gosched() // give Run's goroutine a head start in half of the racing cases
 	}
 	for k := 0; k < c.CloseRace; k++ { // Close concurrent with the start of Run: either may win
 		w.goClose(m)
